@@ -68,6 +68,8 @@ func checkC20(c *Ctx) {
 	// machines log their operations (so that a restart + replay after the reinitialisation is possible)
 	world.UseOpLog = true
 	defer func() { world.UseOpLog = false }()
+	RestartRestoredMachines = func(commSeed uint64) bool { return commSeed%2 == 0 }
+	defer func() { RestartRestoredMachines = nil }()
 	type job struct {
 		n, t  int
 		shape string // plain | adapted014 | interleaved | later-proposal | second-ceremony
@@ -186,6 +188,10 @@ func runC20(c *Ctx, n, t int, shape string, seed uint64) {
 		return
 	}
 	defer ce.Close()
+	if ce.MachinesRestartedFirst {
+		wit["restored_machines_restarted_before_the_reinit_operation"] = true
+		c.Add("reinitialisations_on_machines_restarted_after_restore", 1)
+	}
 	judgeReinit(c, ce, re, origKey, oracle.CommitsBytes(origPoly), origShares, origView, wit, r)
 }
 
